@@ -378,6 +378,24 @@ PROPS["C17"] = {
 }
 
 
+for _p in ("C11", "C09"):
+    PROPS[_p]["check_mods"].append("C11l2")
+    PROPS[_p]["drivers"].append({"name": "c11l2", "n_quick": 30, "n_thorough": 600, "timeout": 3000})
+    PROPS[_p]["rule"] += (" End to end (c11l2): a real connection, consumers A and B on channel 1 and C on channel 2 "
+        "from the public API, 0-3 deliveries each; A is dropped (Drop cancels it) / cancelled, read to its terminal "
+        "message and dropped / cancelled twice and dropped / dropped while the server answers its Cancel with "
+        "Connection.Close / with Channel.Close of channel 1 - in half of the scenarios with the I/O thread slow (4 ms, "
+        "scheduling point 2) between notifying consumers and releasing the blocked caller; then the bystanders get "
+        "one more delivery where they still can, both channels are tried, the connection is closed and every queue is "
+        "drained to disconnection.")
+    PROPS[_p]["explanation"] += (" c11l2 oracle: exactly one Basic.Cancel for A; B and C yield their deliveries in "
+        "order, then exactly one terminal message naming the true cause (ClientClosedConnection; "
+        "ServerClosedConnection; ServerClosedChannel for B only), then disconnection; a server close of channel 1 "
+        "leaves channel 2 and the connection usable; close() returns Ok, or ServerClosedConnection(320) when the "
+        "server closed.")
+    PROPS[_p]["trusted_base"] = PROPS[_p]["trusted_base"] + L2_TRUSTED
+PROPS["C11"]["explanation"] += (" C11_notice_before_release / C11_released_after_notice / C11_answer_first_refuted: "
+    "the two-thread small-step model of the one non-atomic handler step (Model/CancelRace.v).")
 PROPS["C13"]["check_mods"].append("C13l2")
 PROPS["C13"]["drivers"].append({"name": "c13l2", "n_quick": 12, "n_thorough": 240, "timeout": 3000})
 PROPS["C13"]["rule"] += (" End to end (c13l2): a real connection; the listener comes from the public API "
